@@ -157,13 +157,13 @@ theorem tm_adminMint {s s' : State} {m : Minter} {sender : Addr} {funds : List C
     apply tmState_ext <;> first | rfl | (simp only [tmOf, hids, hn])
 
 
-/-- an ACCEPTED composite message (other than the four kinds the aspect model has no counterpart for) is either invisible on the
-projection (no aspect op) or exactly ONE aspect op, which the aspect model accepts with the projected post-state -/
+/-- an ACCEPTED composite message (other than a new source contract appearing) is either invisible on the projection (no aspect
+op) or exactly ONE (extended) aspect op, which the aspect model accepts with the projected post-state -/
 theorem tm_sim_step {s s' : State} {m : Minter} {op : Op} (hm : s.minter = some m) (h : step s op = .ok s')
     (hi : FInv m.supply) (hq : TmQuiet s op) :
     ∃ m', s'.minter = some m' ∧
       ((tmOps s m op = [] ∧ tmOf s' m' = tmOf s m) ∨
-       ∃ aop, tmOps s m op = [aop] ∧ TM.step (tmOf s m) aop = .ok (tmOf s' m')) := by
+       ∃ aop, tmOps s m op = [aop] ∧ TM.stepX (tmOf s m) aop = .ok (tmOf s' m')) := by
   have hacc := accepted_of_ok h
   cases op with
   | setTime t =>
@@ -179,6 +179,7 @@ theorem tm_sim_step {s s' : State} {m : Minter} {op : Op} (hm : s.minter = some 
     obtain ⟨hc, ho, rfl⟩ := srcGive_ok hx
     refine ⟨m, hm, ?_⟩
     refine Or.inr ⟨_, by rw [tmOps, if_pos hacc]; rfl, ?_⟩
+    simp only [TM.stepX]
     simp only [TM.step]
     rw [if_pos (show c ∈ (tmOf s m).colls ∧ (tmOf s m).srcOwner c id = none from ⟨hc, ho⟩)]
     congr 1
@@ -188,6 +189,7 @@ theorem tm_sim_step {s s' : State} {m : Minter} {op : Op} (hm : s.minter = some 
     obtain ⟨x, hx, rfl⟩ := onSrcs_ok h
     refine ⟨m, hm, ?_⟩
     refine Or.inr ⟨_, by rw [tmOps, if_pos hacc]; rfl, ?_⟩
+    simp only [TM.stepX]
     simp only [TM.step]
     exact tm_srcTransfer hx
   | send caller coll id contract recipient msgOk picked =>
@@ -197,6 +199,7 @@ theorem tm_sim_step {s s' : State} {m : Minter} {op : Op} (hm : s.minter = some 
     obtain ⟨m', res, hm', hexec, hrun⟩ := tm_receive (s := { s with srcs := x }) hi hr
     refine ⟨m', hm', ?_⟩
     refine Or.inr ⟨_, by rw [tmOps, if_pos hacc]; rfl, ?_⟩
+    simp only [TM.stepX]
     simp only [TM.step]
     rw [tm_srcTransfer hx]
     have hno : ¬ (contract ≠ (tmOf s m).self ∨ msgOk = false) := by simp [tmOf, hct, hmk]
@@ -210,6 +213,7 @@ theorem tm_sim_step {s s' : State} {m : Minter} {op : Op} (hm : s.minter = some 
     obtain ⟨m', res, hm', hexec, hrun⟩ := tm_receive hi hr
     refine ⟨m', hm', ?_⟩
     refine Or.inr ⟨_, by rw [tmOps, if_pos hacc]; rfl, ?_⟩
+    simp only [TM.stepX]
     simp only [TM.step, hmk, Bool.true_eq_false, if_false, hexec]
     exact hrun
   | create sender funds msg w =>
@@ -224,6 +228,7 @@ theorem tm_sim_step {s s' : State} {m : Minter} {op : Op} (hm : s.minter = some 
     obtain ⟨m', hm', hstep⟩ := tm_adminMint hi h
     refine ⟨m', hm', ?_⟩
     refine Or.inr ⟨_, by rw [tmOps, if_pos hacc]; rfl, ?_⟩
+    simp only [TM.stepX]
     simp only [TM.step]
     exact hstep
   | mintFor sender funds id rcpt =>
@@ -233,6 +238,7 @@ theorem tm_sim_step {s s' : State} {m : Minter} {op : Op} (hm : s.minter = some 
     obtain ⟨m', hm', hstep⟩ := tm_adminMint hi h
     refine ⟨m', hm', ?_⟩
     refine Or.inr ⟨_, by rw [tmOps, if_pos hacc]; rfl, ?_⟩
+    simp only [TM.stepX]
     simp only [TM.step]
     exact hstep
   | purge sender funds =>
@@ -242,6 +248,7 @@ theorem tm_sim_step {s s' : State} {m : Minter} {op : Op} (hm : s.minter = some 
     obtain ⟨_, _, rfl⟩ := purge_ok hf
     refine ⟨_, rfl, ?_⟩
     refine Or.inr ⟨_, by rw [tmOps, if_pos hacc]; rfl, ?_⟩
+    simp only [TM.stepX]
     simp only [TM.step, Bool.true_eq_false, if_false]
     rfl
   | updateStartTime sender funds t =>
@@ -251,6 +258,7 @@ theorem tm_sim_step {s s' : State} {m : Minter} {op : Op} (hm : s.minter = some 
     obtain ⟨_, _, hbefore, _, _, rfl⟩ := updateStartTime_ok hf
     refine ⟨_, rfl, ?_⟩
     refine Or.inr ⟨_, by rw [tmOps, if_pos hacc]; rfl, ?_⟩
+    simp only [TM.stepX]
     have hns : ¬ (tmOf s m).start ≤ (tmOf s m).now := by show ¬ m.startTime ≤ s.now; omega
     simp only [TM.step, Bool.true_eq_false, if_false, hns]
     rfl
@@ -261,6 +269,7 @@ theorem tm_sim_step {s s' : State} {m : Minter} {op : Op} (hm : s.minter = some 
     obtain ⟨_, _, _, _, _, rfl⟩ := updateStartTradingTime_ok hf
     refine ⟨_, rfl, ?_⟩
     refine Or.inr ⟨_, by rw [tmOps, if_pos hacc]; rfl, ?_⟩
+    simp only [TM.stepX]
     simp only [TM.step, Bool.true_eq_false, if_false]
     rfl
   | updatePerAddressLimit sender funds n =>
@@ -270,9 +279,22 @@ theorem tm_sim_step {s s' : State} {m : Minter} {op : Op} (hm : s.minter = some 
     obtain ⟨_, _, _, _, _, rfl⟩ := updatePerAddressLimit_ok hf
     refine ⟨_, rfl, ?_⟩
     refine Or.inr ⟨_, by rw [tmOps, if_pos hacc]; rfl, ?_⟩
+    simp only [TM.stepX]
     simp only [TM.step, Bool.true_eq_false, if_false]
     rfl
-  | shuffle sender funds perm => exact absurd hq (by simp [TmQuiet])
+  | shuffle sender funds perm =>
+    simp only [step] at h
+    obtain ⟨m0, hm0, h⟩ := withMinterS_ok h
+    rw [hm] at hm0; cases hm0
+    obtain ⟨b1, ms, sup, b2, _, _, hsh, _, rfl⟩ := shuffle_ok h
+    obtain ⟨_, hperm, rfl⟩ := Supply.Fixed.shuffle_spec hsh
+    obtain ⟨_, hids, _⟩ := Supply.Fixed.shuffle_keys_ids hperm
+    refine ⟨_, rfl, Or.inr ⟨_, by rw [tmOps, if_pos hacc]; rfl, ?_⟩⟩
+    simp only [TM.stepX, Bool.true_eq_false, if_false]
+    have hp : perm.isPerm (tmOf s m).mintable = true := List.isPerm_iff.mpr hperm
+    rw [if_pos hp]
+    congr 1
+    apply tmState_ext <;> first | rfl | (simp only [tmOf, hids])
   | burnRemaining sender funds =>
     simp only [step] at h
     obtain ⟨m0, m', hm0, hf, rfl⟩ := withMinter_ok h
@@ -281,6 +303,7 @@ theorem tm_sim_step {s s' : State} {m : Minter} {op : Op} (hm : s.minter = some 
     obtain ⟨_, rfl⟩ := Supply.Fixed.burnAll_spec hb
     refine ⟨_, rfl, ?_⟩
     refine Or.inr ⟨_, by rw [tmOps, if_pos hacc]; rfl, ?_⟩
+    simp only [TM.stepX]
     simp only [TM.step, Bool.true_eq_false, if_false]
     rfl
   | sudoStatus v b e =>
@@ -290,6 +313,7 @@ theorem tm_sim_step {s s' : State} {m : Minter} {op : Op} (hm : s.minter = some 
     cases hf
     refine ⟨_, rfl, ?_⟩
     refine Or.inr ⟨_, by rw [tmOps, if_pos hacc]; rfl, ?_⟩
+    simp only [TM.stepX]
     simp only [TM.step, Bool.true_eq_false, if_false]
     rfl
   | sudoParams u =>
@@ -298,18 +322,41 @@ theorem tm_sim_step {s s' : State} {m : Minter} {op : Op} (hm : s.minter = some 
     · cases h
     · rename_i p hp
       cases h
-      obtain ⟨h1, h2⟩ := hq p hp
-      refine ⟨m, hm, ?_⟩
-      refine Or.inl ⟨by rw [tmOps, if_pos hacc]; rfl, ?_⟩
-      apply tmState_ext <;> first | rfl | (simp only [tmOf, h1, h2])
-  | collTransfer sender id to => exact absurd hq (by simp [TmQuiet])
-  | collBurn sender id => exact absurd hq (by simp [TmQuiet])
+      refine ⟨m, hm, Or.inr ⟨.govern p.maxPerAddressLimit p.airdropMintPrice.amount true, ?_, ?_⟩⟩
+      · rw [tmOps, if_pos hacc]; simp only [tmCore, hp]
+      · simp only [TM.stepX, Bool.true_eq_false, if_false]
+        rfl
+  | collTransfer sender id to =>
+    simp only [step] at h
+    obtain ⟨m0, m', hm0, hf, rfl⟩ := withMinter_ok h
+    rw [hm] at hm0; cases hm0
+    obtain ⟨c, _, hown, hc, rfl⟩ := collTransfer_ok hf
+    obtain ⟨ho, hcnt⟩ := coll_transfer_owner hc
+    refine ⟨_, rfl, Or.inr ⟨_, by rw [tmOps, if_pos hacc]; rfl, ?_⟩⟩
+    simp only [TM.stepX, Bool.true_eq_false, if_false]
+    have hcan : (tmOf s m).tgtOwner id = some sender := hown
+    rw [if_pos hcan]
+    congr 1
+    apply tmState_ext <;> first | rfl | exact hcnt.symm | (simp only [tmOf, ho])
+  | collBurn sender id =>
+    simp only [step] at h
+    obtain ⟨m0, m', hm0, hf, rfl⟩ := withMinter_ok h
+    rw [hm] at hm0; cases hm0
+    obtain ⟨c, hown, hc, rfl⟩ := collBurn_ok hf
+    obtain ⟨ho, hcnt⟩ := coll_burn_owner hc
+    refine ⟨_, rfl, Or.inr ⟨_, by rw [tmOps, if_pos hacc]; rfl, ?_⟩⟩
+    simp only [TM.stepX, Bool.true_eq_false, if_false]
+    have hcan : (tmOf s m).tgtOwner id = some sender := hown
+    rw [if_pos hcan]
+    congr 1
+    apply tmState_ext <;> first | rfl | exact hcnt.symm | (simp only [tmOf, ho])
   | collTrading sender t =>
     simp only [step] at h
     obtain ⟨m0, c, hm0, _, rfl⟩ := onColl_ok h
     rw [hm] at hm0; cases hm0
     refine ⟨_, rfl, ?_⟩
     refine Or.inr ⟨_, by rw [tmOps, if_pos hacc]; rfl, ?_⟩
+    simp only [TM.stepX]
     simp only [TM.step, Bool.true_eq_false, if_false]
     rfl
   | collCreator sender new =>
@@ -318,6 +365,7 @@ theorem tm_sim_step {s s' : State} {m : Minter} {op : Op} (hm : s.minter = some 
     rw [hm] at hm0; cases hm0
     refine ⟨_, rfl, ?_⟩
     refine Or.inr ⟨_, by rw [tmOps, if_pos hacc]; rfl, ?_⟩
+    simp only [TM.stepX]
     simp only [TM.step, Bool.true_eq_false, if_false]
     rfl
   | collFreeze sender =>
@@ -326,6 +374,7 @@ theorem tm_sim_step {s s' : State} {m : Minter} {op : Op} (hm : s.minter = some 
     rw [hm] at hm0; cases hm0
     refine ⟨_, rfl, ?_⟩
     refine Or.inr ⟨_, by rw [tmOps, if_pos hacc]; rfl, ?_⟩
+    simp only [TM.stepX]
     simp only [TM.step, Bool.true_eq_false, if_false]
     rfl
   | collOwn sender a =>
@@ -334,17 +383,24 @@ theorem tm_sim_step {s s' : State} {m : Minter} {op : Op} (hm : s.minter = some 
     rw [hm] at hm0; cases hm0
     refine ⟨_, rfl, ?_⟩
     refine Or.inr ⟨_, by rw [tmOps, if_pos hacc]; rfl, ?_⟩
+    simp only [TM.stepX]
     simp only [TM.step, Bool.true_eq_false, if_false]
     rfl
+
+theorem tm_stepX'_ok {w w' : TM.State} {op : TM.OpX} (h : TM.stepX w op = .ok w') : TM.stepX' w op = w' := by
+  simp [TM.stepX', h]
+
+theorem tm_runX_one (w : TM.State) (op : TM.OpX) : TM.runX w [op] = TM.stepX' w op := rfl
+theorem tm_runX_nil (w : TM.State) : TM.runX w [] = w := rfl
 
 /-- the same as a run of the translated ops -/
 theorem tm_sim_ok {s s' : State} {m : Minter} {op : Op} (hm : s.minter = some m) (h : step s op = .ok s')
     (hi : FInv m.supply) (hq : TmQuiet s op) :
-    ∃ m', s'.minter = some m' ∧ TM.run (tmOf s m) (tmOps s m op) = tmOf s' m' := by
+    ∃ m', s'.minter = some m' ∧ TM.runX (tmOf s m) (tmOps s m op) = tmOf s' m' := by
   obtain ⟨m', hm', hcase⟩ := tm_sim_step hm h hi hq
   refine ⟨m', hm', ?_⟩
   rcases hcase with ⟨h0, heq⟩ | ⟨aop, h1, hstep⟩
-  · rw [h0, tm_run_nil, heq]
-  · rw [h1, tm_run_one, tm_step'_ok hstep]
+  · rw [h0, tm_runX_nil, heq]
+  · rw [h1, tm_runX_one, tm_stepX'_ok hstep]
 
 end LP.TMF
